@@ -589,9 +589,10 @@ def canonical_items():
         blk(zt.MX(n_("b"), 300, 5, n_("a.b"))),
         blk(zt.A(n_("a.b"), 300, "10.0.1.1")),
         blk(zt.TXT(n_("a.b"), 300, b"under b")),
-        blk(zt.A(n_("sip.b"), 7200, "10.0.1.2")),
         blk(zt.PTR(n_("c.a.b"), 7200, apex)),
         blk(zt.CNAME(n_("up.b"), 300, n_("mail"))),
+        blk(zt.A(n_("sip.b"), 7200, "10.0.1.2")),
+        zt.AAAA(n_("sip.b"), 7200, "2001:db8::2"),   # same owner across the $ORIGIN switch
         zt.NS(n_("sub"), 300, n_("ns.sub")),
         zt.DS(n_("sub"), 300, 12345, 8, 2, HEX64),
         zt.A(n_("ns.sub"), 300, "10.0.4.1"),
@@ -673,9 +674,10 @@ def small_items():
         zt.AAAA(n_("mail"), T32, "2001:db8::1"),
         zt.A(odd, 0, "10.0.3.1"),
         blk(zt.MX(n_("b"), 300, 5, n_("a.b"))),
-        blk(zt.A(n_("a.b"), 300, "10.0.1.1")),
         blk(zt.PTR(n_("c.a.b"), 7200, apex)),
         blk(zt.CNAME(n_("up.b"), 300, n_("mail"))),
+        blk(zt.A(n_("a.b"), 300, "10.0.1.1")),
+        zt.TXT(n_("a.b"), 300, b"same owner across the $ORIGIN switch"),
         zt.DS(n_("sub"), 300, 12345, 8, 2, HEX64),
         zt.UNKNOWN(n_("unk"), T31, bytes.fromhex("00ff10aa55")),
         gen_item(9, 11, 1, "p${0,3,d}", "host${-8}", "CNAME", 7200),
